@@ -51,6 +51,37 @@ def h64(obj) -> int:
     return int.from_bytes(hashlib.blake2b(s, digest_size=8).digest(), "big")
 
 
+class Rng(random.Random):
+    """random.Random plus fill(w): a w-bit value for "all other bits of the frame".  80 % uniform, 20 % structured
+    (all ones, all zeros, a long run of ones at either end, one or two bits set / clear) - uniform bits practically never
+    produce a run of 20 equal bits, and several realistic arithmetic slips (float rounding, carries, sign extension)
+    only show on such runs."""
+
+    def fill(self, w):
+        if w < 6:
+            return self.getrandbits(w)
+        u = self.random()
+        if u < 0.80:
+            return self.getrandbits(w)
+        k = int((u - 0.80) / 0.20 * 6)
+        ones = (1 << w) - 1
+        if k == 0:
+            return ones
+        if k == 1:
+            return 0
+        if k == 2:   # run of ones at the top, random or zero below
+            n = self.randrange(1, w + 1)
+            low = self.getrandbits(w - n) if (w - n) and self.random() < 0.5 else 0
+            return ((ones >> (w - n)) << (w - n)) | low
+        if k == 3:   # run of ones at the bottom, random or zero above
+            n = self.randrange(1, w + 1)
+            high = self.getrandbits(w - n) if (w - n) and self.random() < 0.5 else 0
+            return (high << n) | (ones >> (w - n))
+        if k == 4:
+            return (1 << self.randrange(w)) | (1 << self.randrange(w))
+        return ones & ~((1 << self.randrange(w)) | (1 << self.randrange(w)))
+
+
 class Ctx:
     """Per-shard monitor state. Everything here is plain data so that shards merge."""
 
@@ -63,7 +94,7 @@ class Ctx:
         self.seed = seed
         self.shard = shard
         self.nshards = nshards
-        self.rng = random.Random((seed * 1000003 + shard * 7919 + 17) & 0xFFFFFFFF)
+        self.rng = Rng((seed * 1000003 + shard * 7919 + 17) & 0xFFFFFFFF)
         self.evaluations = 0
         self.cover = {}  # key -> count
         self.distinct = set()  # 64-bit hashes of non-trivial cases
